@@ -241,7 +241,7 @@ Fixpoint pump (fuel : nat) (c : cfg) (cap : nat) (s : xstate) : option (list N) 
   end.
 
 Definition through_pipe (c : cfg) (chunk cap : nat) (l : list N) : option (list N) :=
-  pump (2 * length l + 8) c (Nat.max 1 cap) (init (chunked chunk l)).
+  pump (S (step_bound (chunked chunk l))) c (Nat.max 1 cap) (init (chunked chunk l)).
 
 Fixpoint through_pipes (n : nat) (c : cfg) (chunk cap : nat) (l : list N) : option (list N) :=
   match n with
